@@ -244,6 +244,12 @@ check:
 		return []error{fmt.Errorf("%s: no YangType defined for %s %s", Source(td), source, td.Name)}
 	}
 	y := *td.YangType
+	// The copy shares the backing arrays of its slices with the type it was
+	// copied from. Clip them, so that appending to them below allocates
+	// rather than writing into storage other types derived from td share.
+	y.Pattern = y.Pattern[:len(y.Pattern):len(y.Pattern)]
+	y.POSIXPattern = y.POSIXPattern[:len(y.POSIXPattern):len(y.POSIXPattern)]
+	y.Type = y.Type[:len(y.Type):len(y.Type)]
 
 	y.Base = td.Type
 	t.YangType = &y
